@@ -189,6 +189,13 @@ def gen_bycell(rng, exact):
             fac = {"multiple": 1.0, "+0.5e-3": 1 + 0.5e-3 / k, "-0.5e-3": 1 - 0.5e-3 / k,
                    "+2e-3": 1 + 3e-3 / k, "-2e-3": 1 - 3e-3 / k, "half": 1 + 0.5 / k, "big": 0.4 / k}[kind]
             hi = lo + k * cell * fac
+            if kind == "multiple" and rng.random() < 0.3:
+                # far from the origin compared with the cell (a thin film on a thick substrate): the float edge
+                # differs from k*cell by rounding noise of the size of an ulp of the COORDINATE
+                kind = "multiple-far"
+                k = rng.choice([1, 1, 1, 2, 3])
+                lo = rng.choice([-1, 1]) * rng.choice([1e3, 1e4, 1e5, 1e6, 1e7]) * round(rng.uniform(1, 9.9), 2) * cell
+                hi = lo + k * cell
         p1.append(lo)
         p2.append(hi)
         c.append(cell)
@@ -398,7 +405,10 @@ def run_case(c):
         rounded = [int(math.floor(r + F(1, 2))) for r in ratios]
         # (an edge shorter than the cell is refused by the 'cell exceeds region' test even inside the 0.1 % band:
         #  the property only promises a mesh for a whole number of cells, so nothing is demanded there)
-        if near and all(k >= 1 for k in rounded) and all(ee >= cc for ee, cc in zip(e, cl)):
+        # ... except when the shortfall is nothing but the rounding of the corner coordinates (a few ulps of the
+        #     coordinate): such an edge IS a whole number of cells as far as the caller can express it
+        ulp = [F(4, 2 ** 52) * max(abs(F(a)), abs(F(b))) for a, b in zip(c["p1"], c["p2"])]
+        if near and all(k >= 1 for k in rounded) and all(ee >= cc or cc - ee <= u for ee, cc, u in zip(e, cl, ulp)):
             if st != "ok":
                 rec["oracle"].append("commensurate-cell-rejected")
             elif [int(x) for x in m.n] != rounded:
